@@ -933,22 +933,33 @@ Proof.
   simpl in Hin.
   repeat (destruct Hin as [Hin | Hin]; [ inversion Hin; subst nm fam kt cv; clear Hin | ]);
     try contradiction; try (exfalso; apply Hnone; reflexivity);
-    unfold jws_kind_ok in K; cbn in K;
+    first [ assert (K1 : k_kty k = KOct) by exact K
+          | assert (K1 : k_kty k = KRsa) by exact K
+          | assert (K1 : k_kty k = KEc) by exact (proj1 K);
+            first [ assert (K2 : k_crv k = "P-256") by exact (proj2 K)
+                  | assert (K2 : k_crv k = "P-384") by exact (proj2 K)
+                  | assert (K2 : k_crv k = "P-521") by exact (proj2 K)
+                  | assert (K2 : k_crv k = "secp256k1") by exact (proj2 K) ]
+          | assert (K1 : k_kty k = KOkp) by exact (proj1 K);
+            assert (K2 : k_crv k = "Ed25519" \/ k_crv k = "Ed448") by exact (proj2 K) ];
+    clear K;
     (destruct (jws_is_sign e) eqn:Es;
     [ pose proof (get_op_key_pass "sign" k find_op_sign Oi (fun _ => Op eq_refl)) as G; rewrite Ps in G
     | pose proof (get_op_key_pass "verify" k find_op_verify Oi
                     (fun Q => False_ind _ (Bool.diff_false_true (eq_trans (eq_sym Pv) Q)))) as G;
       rewrite Pv in G ]);
     unfold jws_check_key_type, jws_sign, jws_verify, ec_check_key, curve_name, curve_key_size, native_of in *;
-    try (destruct K as [K1 K2]); try rewrite K in *; try rewrite K1 in *;
     destruct (jws_has_type_gate e), (jws_has_alg_gate e);
-    cbn -[get_op_key N.mul N.div N.add N.eqb find_curve]; rewrite ?G; cbn -[N.mul N.div N.add N.eqb find_curve];
+    cbn -[get_op_key N.mul N.div N.add N.eqb find_curve];
+    rewrite ?K1;
+    cbn -[get_op_key N.mul N.div N.add N.eqb find_curve]; rewrite ?G;
+    rewrite ?K1;
+    cbn -[N.mul N.div N.add N.eqb find_curve];
     try reflexivity.
-  (* EC verify: the signature length, and EdDSA: the two curves *)
-  all: try (rewrite K2 in *; cbn -[N.mul N.div N.add N.eqb];
-            match goal with |- context [N.eqb siglen ?x] =>
-              replace (N.eqb siglen x) with true
-                by (symmetry; apply N.eqb_eq; apply L; rewrite K2; vm_compute; reflexivity) end;
-            cbn -[get_op_key]; rewrite ?G; reflexivity).
-  all: try (destruct K2 as [K2 | K2]; rewrite K2; reflexivity).
+  (* ES*: the curve; verification: the signature length; EdDSA: the two curves *)
+  all: try (rewrite !K2; vm_compute; reflexivity).
+  all: try (assert (Ls : exists c, find_curve (k_crv k) = Some c) by (rewrite K2; vm_compute; eauto);
+            destruct Ls as [c Fc]; rewrite (L c Fc); rewrite K2 in Fc; vm_compute in Fc;
+            inversion Fc; subst c; rewrite !K2; vm_compute; reflexivity).
+  all: destruct K2 as [K2 | K2]; rewrite K2; reflexivity.
 Qed.
